@@ -510,11 +510,14 @@ impl GroupConfig {
     pub fn input_paths(&self) -> Box<dyn Iterator<Item = Path> + Send> {
         let base_dir = Arc::new(self.base_dir.clone());
         if self.stdin {
-            Box::new(
-                BufReader::new(stdin())
-                    .lines()
-                    .map(move |s| base_dir.resolve(Path::from(s.unwrap().as_str()))),
-            )
+            // File names are arbitrary bytes; don't require the input to be valid UTF-8
+            Box::new(BufReader::new(stdin()).split(b'\n').map(move |line| {
+                let mut line = line.unwrap();
+                if line.last() == Some(&b'\r') {
+                    line.pop();
+                }
+                base_dir.resolve(Path::from(Self::bytes_to_os_string(line)))
+            }))
         } else {
             Box::new(
                 self.paths
@@ -523,6 +526,17 @@ impl GroupConfig {
                     .map(move |p| base_dir.resolve(p)),
             )
         }
+    }
+
+    #[cfg(unix)]
+    fn bytes_to_os_string(bytes: Vec<u8>) -> OsString {
+        use std::os::unix::ffi::OsStringExt;
+        OsString::from_vec(bytes)
+    }
+
+    #[cfg(not(unix))]
+    fn bytes_to_os_string(bytes: Vec<u8>) -> OsString {
+        OsString::from(String::from_utf8_lossy(&bytes).into_owned())
     }
 
     fn build_transform(&self, command: &str) -> io::Result<Transform> {
